@@ -71,6 +71,10 @@ def shards(tier, seed):
 
 
 def _shapes(v, rng, tier, mode):
+    if "damp" in v.tags:
+        # boundary-damping kernels bake width, spacing and extent into the generated code (one compile per shape): draw their shapes from a
+        # stream that does not depend on VERIF_SEED so that the JIT cache stays warm; field contents still vary with the seed
+        rng = util.rng_for(0, "C13-damp-shapes", v.name, mode)
     d = v.dim
     lo = max(v.min_side, 1)
     out = [("minimal", tuple([lo] * d))]
@@ -86,6 +90,9 @@ def _shapes(v, rng, tier, mode):
         hi = (lo + 9) if d == 2 else (lo + 6)
         s = util.shape2d(rng, lo + 1, hi) if d == 2 else util.shape3d(rng, lo + 1, hi)
         out.append(("random", s))
+        if mode == "audit" and tuple(s[::-1]) != tuple(s):
+            # same generated kernel object, same number of cells, axes reversed: per-object caches keyed by size instead of shape
+            out.append(("reversed", tuple(s[::-1])))
     return out
 
 
@@ -122,7 +129,7 @@ def run_shard(sh, rec):
                         continue
                 layouts = LAYOUTS if (mode == "audit" and nt == 2 and not again) else ("contig",)
                 for sk, shape in _shapes(v, rng, tier, mode):
-                    for layout in layouts:
+                    for layout in (layouts if sk in ("minimal", "random") else ("contig",)):
                         A = audit.Arrays(rng, real_t, layout)
                         meta = {"variant": vname, "dtype": dts, "shape": shape, "layout": layout, "threads": nt, "mode": mode}
                         print("RUN", meta, flush=True)
@@ -139,7 +146,7 @@ def run_shard(sh, rec):
                             continue
                         done = audit.audit(vname, case, A, rec, rng, real_t, meta)
                         rec.count("kernel_calls_audited")
-                        if done and mode == "audit" and layout == "contig":
+                        if done and mode == "audit" and layout == "contig" and sk in ("minimal", "random"):
                             # second and third call of the same generated kernel with the SAME array objects, refilled in place
                             # (inputs new values, outputs and scratch new garbage): per-object caches / one-time resets show here
                             for rep in (2, 3):
